@@ -4,7 +4,7 @@ from props.common import filter_tasks, TRUSTED, BASE_ASSUME, field_users, scan_l
 
 MANIFEST = {
     "level": "proof",
-    "text": "With the writer call abstracted to a ghost output event, WriteSB is proved to perform exactly one Write of the 1-byte slice holding the written value when a writer is configured and no call and no state change when none is; ReadSB/ReadSC return 0xFF and WriteSC/ReadSB/ReadSC perform no output; a scan of the exported SSA proves that no other function touches the writer field. Order and exactly-once for every program follow because each SB write maps to one event appended at the time of the call. Guest side: the memory aspect of the opcode lemmas for the 59 instructions with a documented store (exactly the documented bytes are written to the documented addresses, so a write to FF01 is never elided or duplicated) and the decoder lemma routing FF01/FF02 to WriteSB/WriteSC.",
+    "text": "With the writer call abstracted to a ghost output event, WriteSB is proved to perform exactly one Write of the 1-byte slice holding the written value when a writer is configured and no call and no state change when none is; ReadSB/ReadSC return 0xFF and WriteSC/ReadSB/ReadSC perform no output; a scan of the exported SSA proves that no other function touches the writer field. Order and exactly-once for every program follow because each SB write maps to one event appended at the time of the call. Guest side: the memory aspect of the opcode lemmas for the 59 instructions with a documented store (exactly the documented bytes are written to the documented addresses, so a write to FF01 is never elided or duplicated) and the decoder lemma routing FF01/FF02 to WriteSB/WriteSC. In the routing lemma a ghost writer is attached to the serial port, so a bus write to FF01 that does not reach WriteSB is observable as a missing output event.",
     "note": "Assumed: io.Writer.Write is the environment (recorded as an event, assumed to return a nil error; a failing writer panics by design). Routing of FF01/FF02 to these handlers is C06's obligation; wiring of Config.SerialWriter in gameboy.New is checked by C26's scan of gameboy.New.",
     "technique": "function contracts with a ghost output trace on the real go/ssa, VCs discharged by z3, plus an SSA scan for the calls-frame",
     "design_ref": "DESIGN.md section 4 C23",
@@ -29,13 +29,12 @@ def tasks(ctx):
         ts.append(Task(f + "[nowriter]", f, variant="nowriter"))
     ts.append(scan_lemma("scan:only-WriteSB-uses-writer", writer_users, ["serial (package scan)"]))
     # a guest write reaches WriteSB: (a) every instruction with a documented store performs exactly that store on the bus
-    # (value and address; the memory aspect of the opcode lemmas, for the 59 storing opcodes), (b) the bus routes FF01/FF02 to
+    # and no other (value and address; the memory aspect of the opcode lemmas for all 501 opcodes: a read-only instruction that also wrote would deliver a byte nobody sent), (b) the bus routes FF01/FF02 to
     # the serial handlers (decoder lemma)
     import props.cpu_common as cc
     import props.mapper_common as mc
-    so = cc.store_opcodes()
-    for i in range(8):
-        ts.append(cc.opcode_task("C23", so[i::8], i))
+    for i, ch in enumerate(cc.opcode_chunks(16)):
+        ts.append(cc.opcode_task("C23", ch, i))
     for cls in mc.memory_map():
         if cls[0] in ("SB", "SC"):
             ts.append(mc.routing_task("mbc1", cls, "C23"))
